@@ -39,9 +39,10 @@ ARI = {ast.Add: "+", ast.Sub: "-", ast.Mult: "*"}
 
 
 class Reader:
-    def __init__(self, loop_vars, lets):
+    def __init__(self, loop_vars, lets, arrays=None):
         self.loop_vars = loop_vars  # python name -> lean name (naturals)
         self.lets = lets            # python names of integer lets
+        self.arrays = ARRAYS if arrays is None else arrays
 
     def int_expr(self, e):
         if isinstance(e, ast.Constant) and isinstance(e.value, int) and not isinstance(e.value, bool):
@@ -56,7 +57,7 @@ class Reader:
             return ("neg", self.int_expr(e.operand))
         if isinstance(e, ast.BinOp) and type(e.op) in ARI:
             return ("ari", ARI[type(e.op)], self.int_expr(e.left), self.int_expr(e.right))
-        if isinstance(e, ast.Subscript) and isinstance(e.value, ast.Name) and e.value.id in ARRAYS:
+        if isinstance(e, ast.Subscript) and isinstance(e.value, ast.Name) and e.value.id in self.arrays:
             idx = e.slice.elts if isinstance(e.slice, ast.Tuple) else None
             if idx and len(idx) == 2 and isinstance(idx[0], ast.Name) and idx[0].id in self.loop_vars \
                     and isinstance(idx[1], ast.Constant) and isinstance(idx[1].value, int) and idx[1].value >= 0:
@@ -78,8 +79,13 @@ class Reader:
         raise Unsupported(f"{FN}: condition outside the subset: `{ast.unparse(e)}`")
 
 
+CELL_STYLE = "fun"   # "fun": arrays are index functions; "agg": (n, 2) coordinate lists read with PyAgg.cell
+
+
 def lean_int(e) -> str:
     k = e[0]
+    if k == "get" and CELL_STYLE == "agg":
+        return f"(PyAgg.cell {e[1]} {e[2]} {e[3]})"
     if k == "lit":
         return f"({e[1]} : Int)"
     if k == "nat":
@@ -511,6 +517,8 @@ def render(x) -> str:
     lines = [
         "-- GENERATED by translator/gen_kernels_regul.py from pandora/interval_tools.py. Do not edit.",
         "import PandoraModel.Model.PyScanGraph",
+        "import PandoraModel.Model.PyAgg",
+        "import PandoraModel.Model.PyRows",
         "set_option linter.unusedVariables false",
         "namespace Pandora.Generated.KernelsRegul",
         "open Pandora",
@@ -571,6 +579,8 @@ def render(x) -> str:
             m = evaluate_whole(x, bl, br, depth)
             rhs = "[" + ", ".join("[" + ", ".join("true" if v else "false" for v in r) + "]" for r in m) + "]"
             lines.append(f"example : createConnectedGraph {len(bl)} {lean_fun(bl)} {lean_fun(br)} {depth} = {rhs} := by decide +kernel")
+    lines.append(render_graphreg(extract_graphreg()))
+    lines.append(render_borders(extract_borders()))
     lines += ["", "end Pandora.Generated.KernelsRegul"]
     return "\n".join(lines) + "\n"
 
@@ -656,6 +666,329 @@ def selftest():
     finally:
         _SOURCE_OVERRIDE = None
     return problems
+
+
+# ------------------------------------------------------------------------------------------------
+# graph_regularization: the aggregation loop
+# ------------------------------------------------------------------------------------------------
+GFN = "graph_regularization"
+
+
+def _u(node):
+    return ast.unparse(node)
+
+
+def rat_expr(e, qname):
+    """the quantile argument: `quantile`, literals, + - *"""
+    if isinstance(e, ast.Name) and e.id == qname:
+        return ("q",)
+    if isinstance(e, ast.Constant) and isinstance(e.value, int) and not isinstance(e.value, bool):
+        return ("lit", e.value)
+    if isinstance(e, ast.BinOp) and type(e.op) in ARI:
+        return ("ari", ARI[type(e.op)], rat_expr(e.left, qname), rat_expr(e.right, qname))
+    raise Unsupported(f"{GFN}: quantile argument outside the subset: `{_u(e)}`")
+
+
+def lean_rat(e, qname):
+    if e[0] == "q":
+        return qname
+    if e[0] == "lit":
+        return f"({e[1]} : Rat)"
+    return f"({lean_rat(e[2], qname)} {e[1]} {lean_rat(e[3], qname)})"
+
+
+def ev_rat(e, q):
+    if e[0] == "q":
+        return q
+    if e[0] == "lit":
+        return e[1]
+    a, b = ev_rat(e[2], q), ev_rat(e[3], q)
+    return a + b if e[1] == "+" else a - b if e[1] == "-" else a * b
+
+
+def read_slice(node, rd, grids):
+    """`G[row, lo:hi]` -> (G, row, lo, hi) with translated integer expressions"""
+    if not (isinstance(node, ast.Subscript) and isinstance(node.value, ast.Name) and node.value.id in grids and isinstance(node.slice, ast.Tuple)
+            and len(node.slice.elts) == 2 and isinstance(node.slice.elts[1], ast.Slice) and node.slice.elts[1].step is None
+            and node.slice.elts[1].lower is not None and node.slice.elts[1].upper is not None):
+        raise Unsupported(f"{GFN}: not a row slice `G[row, lo:hi]`: `{_u(node)}`")
+    sl = node.slice.elts[1]
+    return node.value.id, rd.int_expr(node.slice.elts[0]), rd.int_expr(sl.lower), rd.int_expr(sl.upper)
+
+
+def extract_graphreg():
+    import random
+
+    fn = find_function(module(), GFN)
+    saved = FN
+    check_njit(fn)
+    params = [a.arg for a in fn.args.args]
+    if len(params) != 6:
+        raise Unsupported(f"{GFN}: parameters {params}")
+    g_inf, g_sup, bl, br, graph, qname = params
+    body = [s for s in fn.body if not (isinstance(s, ast.Expr) and isinstance(getattr(s, "value", None), ast.Constant))]
+    if len(body) != 5:
+        raise Unsupported(f"{GFN}: {len(body)} top-level statements, expected 5")
+    outs = {}
+    for s, g in zip(body[:2], (g_inf, g_sup)):
+        if not (isinstance(s, ast.Assign) and len(s.targets) == 1 and isinstance(s.targets[0], ast.Name) and _u(s.value) == f"{g}.copy()"):
+            raise Unsupported(f"{GFN}: expected `X = {g}.copy()`, got `{_u(s)[:60]}`")
+        outs[s.targets[0].id] = g
+    s2 = body[2]
+    if not (isinstance(s2, ast.Assign) and isinstance(s2.targets[0], ast.Name) and _u(s2.value).startswith(f"np.full({g_inf}.shape, False")):
+        raise Unsupported(f"{GFN}: mask allocation not recognised")
+    mask = s2.targets[0].id
+    loop = body[3]
+    if not (isinstance(loop, ast.For) and isinstance(loop.target, ast.Name) and _u(loop.iter) in (f"prange({graph}.shape[0])", f"range({graph}.shape[0])")
+            and not loop.orelse and len(loop.body) == 8):
+        raise Unsupported(f"{GFN}: the segment loop is not `for i in prange({graph}.shape[0])` with 8 statements")
+    i = loop.target.id
+    b = loop.body
+    # b0: selection
+    if not (isinstance(b[0], ast.Assign) and isinstance(b[0].targets[0], ast.Tuple) and len(b[0].targets[0].elts) == 2
+            and _u(b[0].value) == f"({bl}[{graph}[{i}, :]], {br}[{graph}[{i}, :]])"):
+        raise Unsupported(f"{GFN}: selection `left, right = {bl}[{graph}[{i}, :]], {br}[{graph}[{i}, :]]` not found: `{_u(b[0])[:90]}`")
+    li, ri = (t.id for t in b[0].targets[0].elts)
+    # b1: offsets
+    if not (isinstance(b[1], ast.Assign) and isinstance(b[1].targets[0], ast.Name) and isinstance(b[1].value, ast.Call)
+            and _u(b[1].value.func) == "np.hstack" and len(b[1].value.args) == 1 and isinstance(b[1].value.args[0], ast.Tuple)
+            and len(b[1].value.args[0].elts) == 2 and _u(b[1].value.args[0].elts[0]) == "np.array([0])"
+            and isinstance(b[1].value.args[0].elts[1], ast.Call) and isinstance(b[1].value.args[0].elts[1].func, ast.Attribute)
+            and b[1].value.args[0].elts[1].func.attr == "cumsum" and not b[1].value.args[0].elts[1].args):
+        raise Unsupported(f"{GFN}: offsets are not `np.hstack((np.array([0]), (<lengths>).cumsum()))`")
+    offs = b[1].targets[0].id
+    lengths = b[1].value.args[0].elts[1].func.value
+    # b2, b3: buffers
+    aggs = []
+    for s in b[2:4]:
+        if not (isinstance(s, ast.Assign) and isinstance(s.targets[0], ast.Name) and _u(s.value).startswith(f"np.full({offs}[-1], 0")):
+            raise Unsupported(f"{GFN}: buffer allocation not recognised: `{_u(s)[:60]}`")
+        aggs.append(s.targets[0].id)
+    # b4: block copies
+    jl = b[4]
+    if not (isinstance(jl, ast.For) and isinstance(jl.target, ast.Name) and _u(jl.iter) == f"range(len({offs}) - 1)" and not jl.orelse
+            and len(jl.body) == 2):
+        raise Unsupported(f"{GFN}: the block loop is not `for j in range(len({offs}) - 1)` with two copies")
+    j = jl.target.id
+    rd = Reader({j: j}, [], arrays=(li, ri))
+    # the lengths `(hi - lo)` as a function of j: `[:, c]` read as `[j, c]`
+    class ColToRow(ast.NodeTransformer):
+        def visit_Slice(self, node):
+            return ast.Name(id=j, ctx=ast.Load())
+    len_j = rd.int_expr(ColToRow().visit(ast.parse(_u(lengths), mode="eval").body))
+    sources = {}
+    for s in jl.body:
+        if not (isinstance(s, ast.Assign) and len(s.targets) == 1 and isinstance(s.targets[0], ast.Subscript)
+                and isinstance(s.targets[0].value, ast.Name) and s.targets[0].value.id in aggs
+                and _u(s.targets[0].slice) == f"{offs}[{j}]:{offs}[{j} + 1]"):
+            raise Unsupported(f"{GFN}: block copy target is not `agg[{offs}[{j}]:{offs}[{j} + 1]]`: `{_u(s)[:80]}`")
+        src = read_slice(s.value, rd, (g_inf, g_sup))
+        rng = random.Random(3)
+        for _ in range(30):  # the block length is the length of the copied slice (symbolically: on random coordinates)
+            arrs = {li: [[rng.randint(0, 9), rng.randint(0, 9)]], ri: [[rng.randint(0, 9), rng.randint(0, 9)]]}
+            if ev_int(len_j, {j: 0}, arrs) != ev_int(src[3], {j: 0}, arrs) - ev_int(src[2], {j: 0}, arrs):
+                raise Unsupported(f"{GFN}: block length `{_u(lengths)}` is not the length of the copied slice `{_u(s.value)}`")
+        sources[s.targets[0].value.id] = src
+    if set(sources) != set(aggs):
+        raise Unsupported(f"{GFN}: the two buffers are not both filled")
+    # b5, b6: write-back ; b7: mask
+    rdi = Reader({i: i}, [], arrays=(bl, br))
+    writes = []
+    for s in b[5:7]:
+        if not (isinstance(s, ast.Assign) and len(s.targets) == 1 and isinstance(s.value, ast.Call) and _u(s.value.func) == "np.nanquantile"
+                and len(s.value.args) == 2 and isinstance(s.value.args[0], ast.Name) and s.value.args[0].id in aggs and not s.value.keywords):
+            raise Unsupported(f"{GFN}: write-back is not `OUT[row, lo:hi] = np.nanquantile(agg, e)`: `{_u(s)[:80]}`")
+        tgt = read_slice(s.targets[0], rdi, tuple(outs))
+        writes.append((tgt, s.value.args[0].id, rat_expr(s.value.args[1], qname)))
+    if sorted(w[0][0] for w in writes) != sorted(outs):
+        raise Unsupported(f"{GFN}: the two outputs are not both written")
+    m = b[7]
+    if not (isinstance(m, ast.Assign) and isinstance(m.targets[0], ast.Subscript) and isinstance(m.targets[0].value, ast.Name)
+            and m.targets[0].value.id == mask and isinstance(m.value, ast.Constant) and m.value.value is True):
+        raise Unsupported(f"{GFN}: mask store not recognised")
+    ret = body[4]
+    order = [e.id for e in ret.value.elts] if isinstance(ret, ast.Return) and isinstance(ret.value, ast.Tuple) else []
+    if order[:2] != list(outs) or order[2:] != [mask]:
+        raise Unsupported(f"{GFN}: return is not `({', '.join(outs)}, {mask})`")
+    return {"params": params, "i": i, "j": j, "li": li, "ri": ri, "outs": outs, "sources": sources, "writes": writes, "aggs": aggs,
+            "source": _u(loop).replace("-/", "- /").replace("/-", "/ -")}
+
+
+def evaluate_graphreg(x, inf, sup, bl, br, graph, q, nanquantile):
+    """exact reading of the aggregation loop; grids are lists of rows, `nanquantile(list, q)` is supplied by the caller"""
+    g_inf, g_sup = x["params"][0], x["params"][1]
+    grids = {g_inf: inf, g_sup: sup}
+    out = {o: [list(r) for r in grids[g]] for o, g in x["outs"].items()}
+    for i in range(len(graph)):
+        left = [r for r, on in zip(bl, graph[i]) if on]
+        right = [r for r, on in zip(br, graph[i]) if on]
+        arrs = {x["li"]: left, x["ri"]: right}
+        agg = {}
+        for a, (g, row, lo, hi) in x["sources"].items():
+            vals = []
+            for j in range(min(len(left), len(right))):
+                env = {x["j"]: j}
+                r_, lo_, hi_ = ev_int(row, env, arrs), ev_int(lo, env, arrs), ev_int(hi, env, arrs)
+                vals += grids[g][r_][max(lo_, 0):max(hi_, 0)]
+            agg[a] = vals
+        arrs_i = {x["params"][2]: bl, x["params"][3]: br}
+        for (o, row, lo, hi), a, qe in x["writes"]:
+            env = {x["i"]: i}
+            r_, lo_, hi_ = ev_int(row, env, arrs_i), ev_int(lo, env, arrs_i), ev_int(hi, env, arrs_i)
+            v = nanquantile(agg[a], ev_rat(qe, q))
+            for c in range(max(lo_, 0), min(max(hi_, 0), len(out[o][r_]))):
+                out[o][r_][c] = v
+    return [out[o] for o in x["outs"]]
+
+
+def render_graphreg(x) -> str:
+    global CELL_STYLE
+    g_inf, g_sup, bl, br, graph, qname = x["params"]
+    i, j, li, ri = x["i"], x["j"], x["li"], x["ri"]
+    o1, o2 = list(x["outs"])
+    CELL_STYLE = "agg"
+    try:
+        lines = [
+            "",
+            f"/- pandora/interval_tools.py: {GFN}, the aggregation loop (`np.nanquantile` is the parameter `pyNanquantile`;",
+            "   the Boolean mask output is not translated):",
+            x["source"],
+            "-/",
+            f"def graphRegStep (pyNanquantile : List Val → Rat → Val) ({g_inf} {g_sup} : List (List Val)) ({bl} {br} : List (Nat × Nat))",
+            f"    ({graph} : List (List Bool)) ({qname} : Rat) ({i} : Nat) (pyState : List (List Val) × List (List Val)) : List (List Val) × List (List Val) :=",
+            f"  let {o1} : List (List Val) := pyState.1",
+            f"  let {o2} : List (List Val) := pyState.2",
+            f"  let {li} : List (Nat × Nat) := PyAgg.sel {bl} ({graph}.getD {i} [])",
+            f"  let {ri} : List (Nat × Nat) := PyAgg.sel {br} ({graph}.getD {i} [])",
+        ]
+        for a in x["aggs"]:
+            g, row, lo, hi = x["sources"][a]
+            lines.append(f"  let {a} : List Val := PyAgg.concat (min {li}.length {ri}.length) (fun ({j} : Nat) => PyAgg.slice {g} {lean_int(row)} {lean_int(lo)} {lean_int(hi)})")
+        for (o, row, lo, hi), a, qe in x["writes"]:
+            lines.append(f"  let {o} : List (List Val) := PyAgg.setSlice {o} {lean_int(row)} {lean_int(lo)} {lean_int(hi)} (pyNanquantile {a} {lean_rat(qe, qname)})")
+        lines += [
+            f"  ({o1}, {o2})",
+            "",
+            f"/-- `{GFN}(…)[0:2]` -/",
+            f"def graphRegularization (pyNanquantile : List Val → Rat → Val) ({g_inf} {g_sup} : List (List Val)) ({bl} {br} : List (Nat × Nat))",
+            f"    ({graph} : List (List Bool)) ({qname} : Rat) : List (List Val) × List (List Val) :=",
+            f"  PyAgg.forRange {graph}.length ({g_inf}, {g_sup}) (graphRegStep pyNanquantile {g_inf} {g_sup} {bl} {br} {graph} {qname})",
+        ]
+    finally:
+        CELL_STYLE = "fun"
+    return "\n".join(lines)
+
+
+# ------------------------------------------------------------------------------------------------
+# interval_regularization: the segment extraction (whole-array numpy statements) and the two calls
+# ------------------------------------------------------------------------------------------------
+IFN = "interval_regularization"
+import re as _re
+
+INT = r"(-?\d+)"
+ID = r"([A-Za-z_]\w*)"
+BORDER_STMTS = [
+    ("shape", rf"^{ID}, _ = {ID}\.shape$"),
+    ("pad", rf"^{ID} = {ID} // {INT}$"),
+    ("hstack", rf"^{ID} = np\.hstack\(\(np\.ones\(\({ID}, {ID}\)\), {ID}, np\.ones\(\({ID}, {ID}\)\)\)\)$"),
+    ("nanmin", rf"^{ID} = np\.nanmin\(np\.lib\.stride_tricks\.sliding_window_view\({ID}, {ID}, axis=1\), axis=-1\)$"),
+    ("last", rf"^{ID}\[:, -1\] = {INT}$"),
+    ("diff", rf"^{ID} = np\.diff\(np\.hstack\(\[np\.ones\(\({ID}\.shape\[0\], 1\)\), {ID} (>=|>|<=|<) {ID}\]\), axis=-1\)$"),
+    ("left", rf"^{ID} = np\.argwhere\({ID} == {INT}\)$"),
+    ("right", rf"^{ID} = np\.argwhere\({ID} == {INT}\)$"),
+    ("shift", rf"^{ID}\[:, 1\] = {ID}\[:, 1\] - {INT}$"),
+    ("graph", rf"^{ID} = create_connected_graph\({ID}, {ID}, {ID}\)$"),
+    ("ret", rf"^return graph_regularization\({ID}, {ID}, {ID}, {ID}, {ID}, {ID}\)$"),
+]
+
+
+def extract_borders():
+    fn = find_function(module(), IFN)
+    if fn.decorator_list:
+        raise Unsupported(f"{IFN}: unexpected decorator")
+    params = [a.arg for a in fn.args.args]
+    if len(params) != 7:
+        raise Unsupported(f"{IFN}: parameters {params}")
+    g_inf, g_sup, amb, thr, ksz, depth, quant = params
+    body = [s for s in fn.body if not (isinstance(s, ast.Expr) and isinstance(getattr(s, "value", None), ast.Constant))]
+    if len(body) != len(BORDER_STMTS):
+        raise Unsupported(f"{IFN}: {len(body)} statements, expected {len(BORDER_STMTS)}")
+    g = {}
+    for s, (tag, rx) in zip(body, BORDER_STMTS):
+        m_ = _re.match(rx, _u(s).replace("\n", " "))
+        if not m_:
+            raise Unsupported(f"{IFN}: statement `{_u(s)[:90]}` is not of the form read for `{tag}`")
+        g[tag] = m_.groups()
+    n_row, a0 = g["shape"]
+    pad, k0, div = g["pad"]
+    m1, nl, pl, a1, nr, pr = g["hstack"]
+    m2, m1b, k1 = g["nanmin"]
+    m3, last = g["last"]
+    bd, m4, m5, op, t0 = g["diff"]
+    left, bd1, cl = g["left"]
+    right, bd2, cr = g["right"]
+    r1, r2, sh = g["shift"]
+    gr, gl, grr, gd = g["graph"]
+    ret = g["ret"]
+    ok = (a0 == amb and a1 == amb and k0 == ksz and k1 == ksz and nl == n_row and nr == n_row and pl == pad and pr == pad
+          and m1b == m1 and m2 == m1 and m3 == m1 and m4 == m1 and m5 == m1 and t0 == thr and bd1 == bd and bd2 == bd
+          and r1 == right and r2 == right and left != right and (gl, grr, gd) == (left, right, depth)
+          and ret == (g_inf, g_sup, left, right, gr, quant))
+    if not ok:
+        raise Unsupported(f"{IFN}: the statements do not chain as expected (names: {g})")
+    if int(div) <= 0 or int(sh) < 0:
+        raise Unsupported(f"{IFN}: divisor / shift out of range")
+    return {"params": params, "div": int(div), "last": int(last), "op": op, "cl": int(cl), "cr": int(cr), "shift": int(sh),
+            "source": "\n".join(_u(s) for s in body).replace("-/", "- /").replace("/-", "/ -")}
+
+
+def evaluate_borders(x, amb, thr, ksz):
+    """exact reading: (border_left, border_right) as lists of [row, col]; `amb` rows of Fractions / "nan" """
+    pad = ksz // x["div"]
+    lefts, rights = [], []
+    cmp_ = {">=": lambda a, b: a >= b, ">": lambda a, b: a > b, "<=": lambda a, b: a <= b, "<": lambda a, b: a < b}[x["op"]]
+    for r, row in enumerate(amb):
+        p = [1] * pad + list(row) + [1] * pad
+        m = []
+        for j in range(len(p) + 1 - ksz):
+            w = [v for v in p[j:j + ksz] if v != "nan"]
+            m.append(min(w) if w else "nan")
+        if m:
+            m[-1] = x["last"]
+        flags = [1] + [int(v != "nan" and cmp_(v, thr)) for v in m]
+        d = [b - a for a, b in zip(flags, flags[1:])]
+        lefts += [[r, j] for j, v in enumerate(d) if v == x["cl"]]
+        rights += [[r, j - x["shift"]] for j, v in enumerate(d) if v == x["cr"]]
+    return lefts, rights
+
+
+def render_borders(x) -> str:
+    g_inf, g_sup, amb, thr, ksz, depth, quant = x["params"]
+    if x["op"] != ">=":
+        raise Unsupported(f"{IFN}: comparison `{x['op']}` has no run-time support (only `>=`)")
+    return "\n".join([
+        "",
+        f"/- pandora/interval_tools.py: {IFN}",
+        x["source"],
+        "-/",
+        f"def regulBorders ({amb} : List (List Val)) ({thr} : Rat) ({ksz} : Nat) : List (Nat × Nat) × List (Nat × Nat) :=",
+        f"  let pad : Nat := {ksz} / {x['div']}",
+        f"  let m : List (List Val) := PyRows.hstackConst 1 pad pad {amb}",
+        f"  let m : List (List Val) := PyRows.slidingNanmin m {ksz}",
+        f"  let m : List (List Val) := PyRows.setLastCol m ({x['last']} : Rat)",
+        f"  let border : List (List Int) := PyRows.diffOnes (PyRows.ge m {thr})",
+        f"  let border_left : List (Nat × Nat) := PyRows.argwhere border ({x['cl']} : Int)",
+        f"  let border_right : List (Nat × Nat) := PyRows.argwhere border ({x['cr']} : Int)",
+        f"  let border_right : List (Nat × Nat) := PyRows.subCol1 border_right {x['shift']}",
+        "  (border_left, border_right)",
+        "",
+        f"/-- `{IFN}(…)[0:2]`: the segments, `create_connected_graph` on them, `graph_regularization` on that graph -/",
+        f"def intervalRegularization (pyNanquantile : List Val → Rat → Val) ({g_inf} {g_sup} {amb} : List (List Val)) ({thr} : Rat)",
+        f"    ({ksz} {depth} : Nat) ({quant} : Rat) : List (List Val) × List (List Val) :=",
+        f"  let b := regulBorders {amb} {thr} {ksz}",
+        f"  let graph : List (List Bool) := createConnectedGraph b.1.length (PyAgg.cell b.1) (PyAgg.cell b.2) {depth}",
+        f"  graphRegularization pyNanquantile {g_inf} {g_sup} b.1 b.2 graph {quant}",
+    ])
 
 
 def generate():
